@@ -265,6 +265,12 @@ MUTANTS = [
     ('C16', 'lattice_lib.py', '    if dominant_dim == weak_dim:\n      raise ValueError("%s dominance constraint must relate two different "', '    if dominant_dim == -1:\n      raise ValueError("%s dominance constraint must relate two different "', 'V9', 'degenerate dominance pair accepted'),
     ('C18', 'premade_lib.py', '  if total_weight <= 0:\n    # Without any weight left all values count equally.\n    weights = np.ones(len(weights))\n    total_weight = np.sum(weights)\n', '', 'D3', 'zero total weight divides'),
     ('C17', 'premade_lib.py', '    if max_weight > 0:\n      weights /= max_weight', '    weights /= max_weight', 'D3', 'constant lattice normalised by 0'),
+    ('C13', 'lattice_lib.py', '    if (not l1 or not l1[dim]) and (not l2 or not l2[dim]):', '    if (l1 and not l1[dim]) or (l2 and not l2[dim]):', 'L6', 'dimension skipped when either amount is zero'),
+    ('C13', 'pwl_calibration_layer.py', '    if x.shape[0] < 3:', '    if x.shape[0] < 4:', 'L6', 'wrinkle gives up on 3-row kernels'),
+    ('C13', 'lattice_lib.py', '    l1 = [math.sqrt(l1)] * rank', '    l1 = [l1] * rank', 'L6', 'scalar torsion amount not square-rooted'),
+    ('C19', 'kronecker_factored_lattice_lib.py', 'tf.cast(tf.equal(num_zeros, 1), prod.dtype)', 'tf.cast(tf.greater(num_zeros, 0), prod.dtype)', 'G3', 'single-zero branch also taken for several zeros'),
+    ('C14', 'kronecker_factored_lattice_lib.py', '  if clip_inputs:\n    inputs = tf.clip_by_value(inputs, 0.0, lattice_sizes - 1.0)\n', '', 'X5', 'KFL never clips'),
+    ('C10', 'pwl_calibration_lib.py', '        lengths_tensor * (output_range / tf.reduce_sum(lengths_tensor)))', '        lengths_tensor * (output_range / float(keypoints[-1] - keypoints[0])))', 'I5', 'slope from the untruncated keypoint span'),
     ('C17', 'premade_lib.py', '        # going out of bound on the lattice\n        addition_score = -2.0',
      '        # going out of bound on the lattice\n        addition_score = -1.0', 'W7', 'full lattice ties with a repeat'),
     ('C17', 'premade_lib.py', '        # going out of bound on the lattice\n        addition_score = -2.0',
